@@ -2,6 +2,7 @@ package main
 
 import (
 	"flag"
+	"strings"
 	"fmt"
 	"os"
 	"strconv"
@@ -19,7 +20,11 @@ func main() {
 	flag.IntVar(&o.Verbose, "v", 0, "verbosity")
 	flag.StringVar(&o.Only, "only", "", "only harnesses containing this substring")
 	flag.BoolVar(&o.NoReplay, "noreplay", false, "skip native replays")
+	scan := flag.String("scan", "", "comma separated package list: print determinism-relevant sites and exit")
 	flag.Parse()
+	if *scan != "" {
+		os.Exit(sym.RunScan(o, strings.Split(*scan, ",")))
+	}
 	if s := os.Getenv("VERIF_SEED"); s != "" {
 		o.Seed, _ = strconv.Atoi(s)
 	}
